@@ -31,6 +31,8 @@ def strat_adjust(tier):
         'req_order': st.lists(st.integers(0, 10 ** 6), min_size=3, max_size=3),
         # integer-valued parameters (a discrete prior): whole numbers, stored as int64 where the column has no NaN/inf
         'int_params': st.sampled_from([False, False, True]),
+        # overall magnitude of the parameters and of the summaries (uniformly tiny or large, perfectly valid)
+        'tmag': st.sampled_from([1.0, 1.0, 1e-9, 1e6]), 'smag': st.sampled_from([1.0, 1.0, 1e-9, 1e6]),
     })
 
 
@@ -58,6 +60,9 @@ def run_adjust(case):
     S = obs + rs.randn(n, k) * rs.uniform(0.5, 2.0, size=k)
     B = rs.randn(k, len(pn))
     theta = 1.5 + (S - obs).dot(B) + case['noise'] * rs.randn(n, len(pn))
+    tmag = 1.0 if case.get('int_params') else float(case.get('tmag', 1.0))
+    smag = float(case.get('smag', 1.0))
+    theta, S, obs = theta * tmag, S * smag, obs * smag
     zero_rows = sorted(set(r % n for r in case['zero_rows']))
     for r in zero_rows:
         S[r] = obs[0]
@@ -73,7 +78,7 @@ def run_adjust(case):
     masks = [fin_rows & np.isfinite(theta[:, j]) for j in range(len(pn))]
     if min(mk.sum() for mk in masks) < k + 4:
         return CaseResult(['too-few-finite-rows'], None)
-    ctx = 'n=%d k=%d params=%r data_seed=%d bad_summ=%r bad_par=%r zero_rows=%r' % (n, k, pn, case['data_seed'], case['bad_summ'], case['bad_par'], zero_rows)
+    ctx = 'n=%d k=%d params=%r data_seed=%d bad_summ=%r bad_par=%r zero_rows=%r parameter magnitude %g summary magnitude %g' % (n, k, pn, case['data_seed'], case['bad_summ'], case['bad_par'], zero_rows, tmag, smag)
 
     def run(Sm, obsm, names_req):
         m, sn = _model(obsm, k)
@@ -105,7 +110,7 @@ def run_adjust(case):
         if got.shape != ref.shape:
             raise Violation('C17:adjust-rows', 'parameter %s: %d rows have finite summaries and parameter, adjust_posterior returned %r values; %s'
                             % (p, mk.sum(), got.shape, ctx))
-        scale = max(1.0, np.abs(ref).max())
+        scale = max(tmag, np.abs(ref).max())
         if not np.allclose(got, ref, rtol=1e-7, atol=1e-8 * scale):
             raise Violation('C17:adjust-value', 'parameter %s: adjusted values differ from theta - (s - s_obs).beta_lstsq by up to %.3g; %s'
                             % (p, np.abs(got - ref).max(), ctx))
@@ -121,7 +126,7 @@ def run_adjust(case):
     q1, _ = np.linalg.qr(ars.randn(k, k))
     q2, _ = np.linalg.qr(ars.randn(k, k))
     Amat = (q1 * np.exp(ars.uniform(-1, 1, size=k))).dot(q2)
-    shift = ars.randn(k) * 2
+    shift = ars.randn(k) * 2 * smag
     with np.errstate(invalid='ignore'):
         S2 = S.dot(Amat.T) + shift
     S2[~fin_rows] = np.nan
@@ -131,7 +136,7 @@ def run_adjust(case):
         adj2 = run(S2, obs.dot(Amat.T) + shift, req)
     for p in names:
         a, b = np.asarray(adj.outputs[p]), np.asarray(adj2.outputs[p])
-        scale = max(1.0, np.abs(a).max())
+        scale = max(tmag, np.abs(a).max())
         if a.shape != b.shape or not np.allclose(a, b, rtol=1e-6, atol=1e-6 * scale):
             raise Violation('C17:adjust-not-affine-invariant', 'parameter %s changes by up to %.3g under an invertible affine map of the summaries; %s'
                             % (p, np.abs(a - b).max() if a.shape == b.shape else float('nan'), ctx))
